@@ -1430,12 +1430,26 @@ def truc_rule_replay(ctx, crate):
     ok = tup[0] == 'rv' and tup[1].get('ak') == 'tuple' and len(tup[1]['fields']) == 2
     rm_src = None
     if ok:
-        s = trace_value(b, defs, tup[1]['fields'][1])[-1]
-        # copy (*_69) where _69 = Index::index(&datum_ids_mapping, &d)
-        if s[0] == 'place' and s[1]['p'] == ['deref']:
-            s2 = trace_value(b, defs, {'copy': {'l': s[1]['l'], 'p': [], 'ty': None}})[-1]
-            if s2[0] == 'call' and (callee_path(s2[1], resolved=False) or '').endswith('Index::index') and 'BTreeMap<' in (callee_ty_args(s2[1], resolved=False) or [''])[0]:
-                rm_src = s2[1]
+        # the id must come out of a lookup in the source->target id map (map[&d], map.get(&d)…),
+        # possibly through deref / copied / cloned / unwrap / expect
+        cur = tup[1]['fields'][1]
+        for _ in range(10):
+            s = trace_value(b, defs, cur)[-1]
+            if s[0] == 'place' and s[1]['p'] == ['deref']:
+                cur = {'copy': {'l': s[1]['l'], 'p': [], 'ty': None}}
+                continue
+            if s[0] == 'call':
+                cp = callee_path(s[1], resolved=False) or ''
+                rp = callee_path(s[1]) or ''
+                tys = callee_ty_args(s[1], resolved=False) or ['']
+                if (cp.endswith('Index::index') and 'BTreeMap<' in tys[0]) or rp.endswith('BTreeMap::<K, V, A>::get'):
+                    recv = trace_value(b, defs, s[1]['args'][0])[-1]
+                    rm_src = s[1]
+                    break
+                if any(rp.endswith(x) for x in ('::unwrap', '::expect', '::copied', '::cloned', '::unwrap_or_else')) or cp in ('core::clone::Clone::clone', 'core::ops::deref::Deref::deref'):
+                    cur = s[1]['args'][0]
+                    continue
+            break
     if rm_src is None:
         ctx.add(['C20'], 'V-MAP', fmt_span(t_rm['span']), 'the id handed to the remove callback is not looked up in the source-to-target id map (a source id is used as a target id)', key='rm-unmapped')
     else:
@@ -1550,6 +1564,46 @@ def truc_rule_replay(ctx, crate):
                     inner = trace_value(cbody, cd, r[1]['o'])[-1]
                     neg = inner[0] == 'call' and (callee_path(inner[1]) or '').endswith('::contains')
             retained[l] = (base, against, neg)
+    def closure_negated_contains(cl_rv):
+        cbody = closures.get(cl_rv['closure'])
+        if cbody is None:
+            return False
+        cd = local_defs(cbody)
+        r = trace_value(cbody, cd, {'copy': {'l': 0, 'p': [], 'ty': None}})[-1]
+        if r[0] == 'rv' and r[1]['k'] == 'un' and r[1]['op'] == 'Not':
+            inner = trace_value(cbody, cd, r[1]['o'])[-1]
+            return inner[0] == 'call' and (callee_path(inner[1]) or '').endswith('::contains')
+        return False
+
+    def filtered_collect(call):
+        """collect(<iter over X>.filter(|d| !Y.contains(d))) -> (label X, label Y, negated) or None"""
+        cur = call['args'][0]
+        against = neg = None
+        for _ in range(10):
+            s = trace_value(b, defs, cur)[-1]
+            if s[0] != 'call':
+                break
+            cp = callee_path(s[1]) or ''
+            dp = callee_path(s[1], resolved=False) or ''
+            if dp.endswith('Iterator::filter'):
+                cl = trace_value(b, defs, s[1]['args'][1])[-1]
+                if cl[0] == 'rv' and cl[1].get('ak') == 'closure':
+                    against = data_of(cl[1]['fields'][0]) if cl[1]['fields'] else None
+                    neg = closure_negated_contains(cl[1])
+                cur = s[1]['args'][0]
+                continue
+            if dp.endswith('Iterator::copied') or dp.endswith('Iterator::cloned') or dp.endswith('IntoIterator::into_iter') or cp.endswith('::iter'):
+                cur = s[1]['args'][0]
+                continue
+            if cp.endswith('Deref>::deref'):
+                cur = s[1]['args'][0]
+                continue
+            break
+        if against is None:
+            return None
+        base = data_of(cur)
+        return (base, against, neg)
+
     def kind_of(op):
         outs = set()
         for s in sources(b, defs, op):
@@ -1558,7 +1612,11 @@ def truc_rule_replay(ctx, crate):
             elif s[0] == 'call' and not s[1]['dest']['p'] and s[1]['dest']['l'] in retained:
                 outs.add(retained[s[1]['dest']['l']])
             elif s[0] == 'call' and (callee_path(s[1], resolved=False) or '').endswith('Iterator::collect'):
-                outs.add(('all', data_of({'copy': {'l': s[1]['dest']['l'], 'p': [], 'ty': None}})))
+                fc = filtered_collect(s[1])
+                if fc is not None:
+                    outs.add(fc)
+                else:
+                    outs.add(('all', data_of({'copy': {'l': s[1]['dest']['l'], 'p': [], 'ty': None}})))
             elif s[0] == 'call' and (callee_path(s[1]) or '').startswith('alloc::vec::Vec::<T>::new'):
                 outs.add(('empty',))
             else:
